@@ -14,12 +14,12 @@ shared state with the snapshot.  The first step the model does not allow, or aft
 differs, is reported (`conf=FAIL@line:reason`).
 
 Independently of the model, the **spec oracle** judges what the implementation did, from the
-observations alone: no getter invoked twice; getters of Adds that started after a Close returned are
-never invoked; when a run ends quiescent (in contract, connection alive) every getter of an Add
+observations alone: no getter invoked twice; no call panics; getters of Adds that started after a Close
+returned are never invoked; when a run ends quiescent (connection alive) every getter of an Add
 that returned before any Close began was invoked once, and if not nil flushed once, nothing appended
-left unflushed; a Close that returns nil and was not overlapped by any Add call has all earlier Adds'
-getters invoked (unless the `closed` it loaded was stored by a worker whose exit check predates the Close:
-the two known findings).  One output line per run, one `SUMMARY` line.
+left unflushed, no getter left in a shard; when a Close returns nil (connection alive) every getter of every Add
+that had returned before any Close call began has been invoked – whatever other Add calls overlap the Close.
+One output line per run, one `SUMMARY` line.
 -/
 open Netpoll.Shard
 
@@ -80,7 +80,7 @@ def cmpObs (s : S) (o : Obs) : Option String :=
 
 inductive Phase
   | adder (i : Nat)
-  | closer (pc : Option CPc)         -- none = returned
+  | closer (pc : Option CPc)         -- some .cas = before its CAS, some _ = the call that won the CAS (pc in the model), none = returned
   | loop                             -- the loop worker
   | tail (pc : Option TPc)           -- none = returned
   | env
@@ -111,25 +111,17 @@ structure Run where
   addOrder : List String := []
   closeBegan : Bool := false
   closeReturned : Bool := false
-  emptyAdd : Bool := false
-  idxWrap : Bool := false
   died : Bool := false               -- connection died or an Append/Flush error was scripted
   last : Obs := {}
   spec : Option String := none       -- first spec violation
-  kfCloseEarly : Nat := 0          -- known finding: Close returned while an in-flight Add still owed a trigger
-  kfCloseStale : Nat := 0          -- known finding: `closed` stored by a worker whose exit check predates the Close
   panicked : Bool := false
-  recheckBeforeClose : List String := []   -- workers whose most recent step came before any Close step
-  staleClosed : Bool := false
 
 structure Tot where
   runs : Nat := 0
   confFail : Nat := 0
   specFail : Nat := 0
-  outOfContract : Nat := 0
   quiescent : Nat := 0
-  kfCloseEarly : Nat := 0
-  kfCloseStale : Nat := 0
+  closeNil : Nat := 0
   lines : Nat := 0
   sites : Std.HashMap String Nat := {}
   firstConf : String := ""
@@ -176,15 +168,20 @@ def modelStep (r : Run) (ln : Nat) (actor site : String) (extra : List String) (
       if a.pc.site ≠ site then setConf r ln s!"{actor} is at {site}, model adder at {repr a.pc} ({a.pc.site})"
       else fin r (step s (.adder i)) s!"adder pc {repr a.pc}"
   | some (.closer none) => setConf r ln s!"{actor} steps after its Close returned in the model"
-  | some (.closer (some pc)) =>
-    if pc.site ≠ site then setConf r ln s!"{actor} is at {site}, model closer at {repr pc} ({pc.site})"
+  | some (.closer (some .cas)) =>
+    if CPc.cas.site ≠ site then setConf r ln s!"{actor} is at {site}, model closer before its CAS ({CPc.cas.site})"
     else
-      let next : Option CPc := match pc with
-        | .cas => if s.state = active then some .state else none
-        | .state => if s.state ≠ closed then some .trig else none
-        | .trig => if s.trigger = 0 then some .store else some .state
-        | .store => none
-      fin { r with phases := r.phases.insert actor (.closer next) } (step s (.closer pc)) s!"closer pc {repr pc}"
+      -- the call whose CAS succeeds becomes the one winner (its pc lives in the model's slot `cwin`)
+      let next : Option CPc := if s.state = active then some .lock else none
+      fin { r with phases := r.phases.insert actor (.closer next) } (step s (.closer .cas)) "closer pc cas"
+  | some (.closer (some _)) =>
+    match s.cwin with
+    | none => setConf r ln s!"{actor} steps at {site}, model has no Close call past its CAS"
+    | some pc =>
+      if pc.site ≠ site then setConf r ln s!"{actor} is at {site}, model closer at {repr pc} ({pc.site})"
+      else
+        let next : Option CPc := if pc = .store then none else some .lock
+        fin { r with phases := r.phases.insert actor (.closer next) } (step s (.closer pc)) s!"closer pc {repr pc}"
   | some .loop =>
     if s.wpc.site ≠ site then setConf r ln s!"{actor} is at {site}, model worker at {repr s.wpc} ({s.wpc.site})"
     else
@@ -203,10 +200,9 @@ def modelStep (r : Run) (ln : Nat) (actor site : String) (extra : List String) (
     if pc.site ≠ site then setConf r ln s!"{actor} is at {site}, model tail worker at {repr pc} ({pc.site})"
     else
       let next : Option TPc := match pc with
-        | .recheck => if s.trigger > 0 then some .run else some .cas
+        | .recheck => if s.trigger > 0 then some .run else none
         | .run => if s.runNum + 1 > 1 then none else some .spawn
         | .spawn => none
-        | .cas => none
       fin { r with phases := r.phases.insert actor (.tail next) } (step s (.tail pc)) s!"tail pc {repr pc}"
   | some .env =>
     if site = "die" then fin r (step s .die) "die" else setConf r ln s!"unknown environment step {site}"
@@ -226,14 +222,6 @@ def oracleStep (r : Run) (ln : Nat) (actor _site : String) (extra : List String)
       if ¬ a.started then
         r := { r with adds := r.adds.insert actor { a with started := true, mustNot := r.closeReturned, beforeClose := ¬ r.closeBegan } }
     | none => pure ()
-  if actor.startsWith "W" then
-    -- the step that moves `state` from closing to closed is the worker's final CAS; the step of the same worker
-    -- before it is its exit check.  If that check predates every Close step, the CAS acts on a stale observation
-    -- (known finding close-early-stale).  Label-independent on purpose.
-    if r.last.st = 1 ∧ o.st = 2 ∧ r.recheckBeforeClose.contains actor then
-      r := { r with staleClosed := true }
-    r := { r with recheckBeforeClose := if r.closeBegan then r.recheckBeforeClose.filter (· ≠ actor)
-                                        else actor :: r.recheckBeforeClose.filter (· ≠ actor) }
   if actor.startsWith "C" then r := { r with closeBegan := true }
   if actor = "D" then r := { r with died := true }
   if kv extra "err" == some "1" then r := { r with died := true }
@@ -247,23 +235,25 @@ def oracleStep (r : Run) (ln : Nat) (actor _site : String) (extra : List String)
 
 def oracleRet (r : Run) (ln : Nat) (actor kind : String) : Run := Id.run do
   let mut r := r
-  if kind = "panic" then r := { r with panicked := true }
+  if kind = "panic" then
+    r := setSpec { r with panicked := true } ln s!"{actor} panicked (an Add that panics loses its getters; see the '# panic' line of the trace)"
   if actor.startsWith "A" then
     match r.adds.get? actor with
     | some a => r := { r with adds := r.adds.insert actor { a with returned := true, must := ¬ r.closeBegan ∧ kind = "nil" } }
     | none => pure ()
   if actor.startsWith "C" ∧ kind = "nil" then
     r := { r with closeReturned := true }
-    -- Close waits: with no Add in flight, every completed Add's getters have been handled
-    let infos := r.adds.toList.map (·.2)
-    -- an Add call that overlaps the Close call (began before it, had not returned when it began): the known
-    -- finding `close-early-inflight` needs one (it may have returned by now, after Close's observation)
-    let inflight := infos.any fun a => a.started ∧ a.beforeClose ∧ ¬ a.must
-    let unhandled := infos.any fun a => a.returned ∧ ¬ a.mustNot ∧ a.must ∧ a.ids.any fun x => ¬ r.last.inv.contains x
-    if unhandled ∧ r.last.al = 1 ∧ ¬ r.died ∧ ¬ r.emptyAdd ∧ ¬ r.idxWrap then
-      if inflight then r := { r with kfCloseEarly := r.kfCloseEarly + 1 }
-      else if r.staleClosed then r := { r with kfCloseStale := r.kfCloseStale + 1 }
-      else r := setSpec r ln "Close returned nil, no Add call overlapped it, and a getter of an Add that had returned before was not invoked"
+    -- Close waits: every getter of an Add call that had returned before any Close call began has been handled,
+    -- whatever other Add calls overlap the Close (theorem C17_close_waits)
+    if r.last.al = 1 ∧ ¬ r.died then
+      for name in r.addOrder do
+        match r.adds.get? name with
+        | none => pure ()
+        | some a =>
+          if a.returned ∧ a.must ∧ ¬ a.mustNot then
+            match a.ids.find? (fun x => ¬ r.last.inv.contains x) with
+            | some x => r := setSpec r ln s!"Close returned nil while getter {x} of {name} (an Add that had returned before any Close began) had not been invoked"
+            | none => pure ()
   return r
 
 def oracleEnd (r : Run) (ln : Nat) (result : String) (nilIds : List Nat) : Run := Id.run do
@@ -271,7 +261,7 @@ def oracleEnd (r : Run) (ln : Nat) (result : String) (nilIds : List Nat) : Run :
   if result = "deadlock" then r := setSpec r ln "deadlock: some goroutine is blocked for ever"
   if result = "hang" then r := setSpec r ln "hang: the run does not finish (a goroutine spins or blocks for ever)"
   if result = "cutoff" then r := setSpec r ln "step cutoff reached: livelock suspected"
-  if result = "quiescent" ∧ ¬ r.emptyAdd ∧ ¬ r.idxWrap ∧ ¬ r.panicked then
+  if result = "quiescent" ∧ ¬ r.panicked then
     let o := r.last
     if o.al = 1 ∧ ¬ r.died then
       if o.wb ≠ [] then r := setSpec r ln s!"quiescent with appended data never flushed: {o.wb}"
@@ -293,25 +283,22 @@ def oracleEnd (r : Run) (ln : Nat) (result : String) (nilIds : List Nat) : Run :
 def modelEnd (r : Run) (ln : Nat) (result : String) : Run :=
   if r.conf.isSome then r else
   let s := r.model
-  let settled := s.adders.all (fun a => a.pc = .done ∨ a.pc = .panicked) ∧ s.wpc = .idle ∧
-    s.tRecheck + s.tRun + s.tSpawn + s.tCas + s.cCas + s.cState + s.cTrig + s.cStore = 0
+  let settled := s.adders.all (fun a => a.pc = .done) ∧ s.wpc = .idle ∧
+    s.tRecheck + s.tRun + s.tSpawn + s.cCas = 0 ∧ s.cwin = none
   if result = "quiescent" ∧ ¬ settled then setConf r ln "implementation is quiescent, model still has an actor in flight"
   else if s.clash ≠ 0 then setConf r ln "two loop workers at once"
   else r
 
 def finishRun (t : Tot) (r : Run) (result : String) (stepsS preS : String) (out : IO.FS.Stream) : IO Tot := do
-  let contract := if r.emptyAdd then "empty-add" else if r.idxWrap then "idx-wrap" else "in"
   let confS := match r.conf with | none => "ok" | some m => "FAIL@" ++ m
   let specS := match r.spec with | none => "ok" | some m => "FAIL@" ++ m
-  out.putStrLn s!"R {r.k} conf={confS} ## end={result} contract={contract} kf_close_early={r.kfCloseEarly} kf_close_stale={r.kfCloseStale} {stepsS} {preS} ## spec={specS}"
+  out.putStrLn s!"R {r.k} conf={confS} ## end={result} close_nil={if r.closeReturned then 1 else 0} {stepsS} {preS} ## spec={specS}"
   return { t with
     runs := t.runs + 1,
     confFail := t.confFail + (if r.conf.isSome then 1 else 0),
     specFail := t.specFail + (if r.spec.isSome then 1 else 0),
-    outOfContract := t.outOfContract + (if contract = "in" then 0 else 1),
     quiescent := t.quiescent + (if result = "quiescent" then 1 else 0),
-    kfCloseEarly := t.kfCloseEarly + r.kfCloseEarly,
-    kfCloseStale := t.kfCloseStale + r.kfCloseStale,
+    closeNil := t.closeNil + (if r.closeReturned then 1 else 0),
     firstConf := if t.firstConf = "" then (match r.conf with | some m => s!"run {r.k} line {m}" | none => "") else t.firstConf,
     firstSpec := if t.firstSpec = "" then (match r.spec with | some m => s!"run {r.k} line {m}" | none => "") else t.firstSpec }
 
@@ -337,18 +324,15 @@ partial def loop (noModel : Bool) (h : IO.FS.Stream) (out : IO.FS.Stream) (ln : 
       | some w => ((w.drop 3).toString.splitOn ".").filterMap (·.toNat?)
       | none => []
     let r' : Run := { k := k.toNat?.getD 0, active := true, size := size,
-                      model := { init size with idx := idxN }, idxWrap := false,
-                      conf := if noModel then some "0:model comparison switched off (hook-free stress mode)" else none,
-                      staleClosed := noModel }
+                      model := { init size with idx := idxN },
+                      conf := if noModel then some "0:model comparison switched off (hook-free stress mode)" else none }
     loop noModel h out ln r' t nil'
   | ["new", name, "add", n] =>
     let n := n.toNat?.getD 0
     let ids := List.range' r.nextId n
     let m := match step r.model (.add n) with | some s => s | none => r.model
-    let wraps := decide (r.model.idx + r.nAdders + 1 ≥ 2147483648)
     let r := { r with model := m, phases := r.phases.insert name (.adder r.nAdders), nAdders := r.nAdders + 1,
-                      nextId := r.nextId + n, adds := r.adds.insert name { ids := ids }, addOrder := r.addOrder ++ [name],
-                      emptyAdd := r.emptyAdd || n == 0, idxWrap := r.idxWrap || wraps }
+                      nextId := r.nextId + n, adds := r.adds.insert name { ids := ids }, addOrder := r.addOrder ++ [name] }
     loop noModel h out ln r t nilIds
   | ["new", name, "close"] =>
     let m := match step r.model .close with | some s => s | none => r.model
@@ -369,7 +353,7 @@ partial def loop (noModel : Bool) (h : IO.FS.Stream) (out : IO.FS.Stream) (ln : 
         (match r.model.adders[i]? with
          | some a =>
            if kind = "nil" ∧ a.pc ≠ .done then setConf r ln s!"{actor} returned, model adder at {repr a.pc}"
-           else if kind = "panic" ∧ a.pc ≠ .panicked then setConf r ln s!"{actor} panicked, model adder at {repr a.pc}"
+           else if kind = "panic" then setConf r ln s!"{actor} panicked, the model has no panicking Add (adder at {repr a.pc})"
            else r
          | none => r)
       | some (.closer (some pc)) => setConf r ln s!"{actor} returned {kind}, model closer still at {repr pc}"
@@ -395,7 +379,7 @@ def main (path : String) (noModel : Bool) : IO UInt32 := do
   let out ← IO.getStdout
   let t ← loop noModel (IO.FS.Stream.ofHandle h) out 0 {} {} []
   let sites := (t.sites.toList.map fun (k, v) => s!"{k}:{v}").toArray.qsort (· < ·) |>.toList
-  out.putStrLn s!"SUMMARY runs={t.runs} conf_fail={t.confFail} spec_fail={t.specFail} out_of_contract={t.outOfContract} quiescent={t.quiescent} kf_close_early={t.kfCloseEarly} kf_close_stale={t.kfCloseStale} lines={t.lines} sites={",".intercalate sites}"
+  out.putStrLn s!"SUMMARY runs={t.runs} conf_fail={t.confFail} spec_fail={t.specFail} quiescent={t.quiescent} close_nil={t.closeNil} lines={t.lines} sites={",".intercalate sites}"
   if t.firstConf ≠ "" then out.putStrLn s!"FIRSTCONF {t.firstConf}"
   if t.firstSpec ≠ "" then out.putStrLn s!"FIRSTSPEC {t.firstSpec}"
   return 0
